@@ -58,7 +58,7 @@ def loop_inv(k, header, kw):
 UNIT = Unit(
     name="U-DCEBLK",
     properties=["C09", "C02"],
-    rules=[("strip", "ast::"), "opt_map", "let_chain_rev", "opt_is_some_and", "iter_any"],
+    rules=[("strip", "ast::"), "opt_map", "let_chain_rev", "opt_is_some_and", "opt_is_none_or", "iter_any"],
     clause_scope={"C02": {"only": ["go_expr_stmt_ok", "stmt_callee_ok"]}, "C09": {"except": ["go_expr_stmt_ok", "stmt_callee_ok"]}},
     describe="go::dce::dce_block_with_live (statement-level dead-code elimination, all statement kinds, nested blocks) and effect_stmt: the "
              "output block is, in order, the image of each input statement — the statement itself with DCE applied inside it, or, for a "
@@ -86,7 +86,7 @@ UNIT = Unit(
            obligation="every input statement is kept (DCE'd inside), reduced to the evaluation of its right-hand side, or — only if "
                       "that cannot have an effect — dropped; order and multiplicity preserved",
            contract="ensures aligned(block.stmts@, 0, r.0.stmts@, 0),\n        decreases block,",
-           ghost=[("@entry", "", f"let ghost {INS} = block.stmts@;"),
+           ghost=[("@entry", "", "proof { broadcast use lemma_aligned_empty; }"), ("@entry", "", f"let ghost {INS} = block.stmts@;"),
                   ("@loop:0:body", "", "let ghost out_b = out@; let ghost p0 = __sv@.len();"),
                   ("@loop:0:end", "", f"proof {{ let img = out@.subrange(out_b.len() as int, out@.len() as int).reverse(); "
                                       f"assert(out@.reverse() =~= img + out_b.reverse()); lemma_aligned_step({INS}, p0 as int, out_b.reverse(), img); }}"),
